@@ -526,7 +526,7 @@ func collectPanicObligations(c *Ctx, li *LockInfo, fns map[*ssa.Function]bool, v
 				add(in, "slice", describe(x.X)+"["+describe(x.Low)+":"+describe(x.High)+"]", ok, why)
 			case *ssa.TypeAssert:
 				if !x.CommaOk {
-					add(in, "typeassert", "."+"("+stripTypeArgs(types.TypeString(x.AssertedType, func(p *types.Package) string { return p.Name() }))+")", false, "type assertion without comma-ok")
+					add(in, "typeassert", "."+"("+shortTypeName(x.AssertedType)+")", false, "type assertion without comma-ok")
 				}
 			case *ssa.BinOp:
 				if x.Op == token.QUO || x.Op == token.REM {
@@ -621,9 +621,9 @@ func collectPanicObligations(c *Ctx, li *LockInfo, fns map[*ssa.Function]bool, v
 								if fv, _, is := fieldOf(fa); is {
 									okF, n, bad := fieldAlwaysPositive(li, fv)
 									if okF {
-										return true, fmt.Sprintf("type invariant: all %d assignments to %s in the module store a value > 0 (a zero-valued struct is excluded only by the callers' error checks)", n, fv.Name())
+										return true, fmt.Sprintf("type invariant: all %d assignments to %s in the module store a value > 0 (a zero-valued struct is excluded only by the callers' error checks)", n, fname(fv))
 									}
-									return false, "field " + fv.Name() + " can be assigned a value that is not provably > 0 at " + bad
+									return false, "field " + fname(fv) + " can be assigned a value that is not provably > 0 at " + bad
 								}
 							}
 						}
